@@ -129,6 +129,11 @@ package scheduler
 //@   ensures forall u string :: u != uuid ==> dom(sch.uuidOp)[u] == old(dom(sch.uuidOp)[u])
 //@ func Scheduler.kill property C14
 //@   ghost locked bool = false
+//@   # the operation latch taken here is given back on every path (a latch that
+//@   # stays taken makes every later kill/cancel/requeue of the container a no-op)
+//@   calls Scheduler.uuidUnlock#1: requires locked && $0 == uuid
+//@   calls Scheduler.uuidUnlock#1: set locked = false
+//@   ensures !locked
 //@   calls Scheduler.uuidLock#1: requires $0 == uuid
 //@   calls Scheduler.uuidLock#1: set locked = $r
 //@   calls WorkerPool.KillContainer#1: requires locked && $0 == uuid
@@ -139,6 +144,11 @@ package scheduler
 // for a container the queue still shows as Queued.
 //@ func Scheduler.lockContainer property C14
 //@   ghost locked bool = false
+//@   # the operation latch taken here is given back on every path (a latch that
+//@   # stays taken makes every later kill/cancel/requeue of the container a no-op)
+//@   calls Scheduler.uuidUnlock#1: requires locked && $0 == uuid
+//@   calls Scheduler.uuidUnlock#1: set locked = false
+//@   ensures !locked
 //@   ghost st arvados.ContainerState = ""
 //@   ghost present bool = false
 //@   calls Scheduler.uuidLock#1: requires $0 == uuid
@@ -149,6 +159,11 @@ package scheduler
 //@   calls ContainerQueue.Lock#1: requires locked && present && st == arvados.ContainerStateQueued && $0 == uuid
 //@ func Scheduler.cancel property C14
 //@   ghost locked bool = false
+//@   # the operation latch taken here is given back on every path (a latch that
+//@   # stays taken makes every later kill/cancel/requeue of the container a no-op)
+//@   calls Scheduler.uuidUnlock#1: requires locked && $0 == uuid
+//@   calls Scheduler.uuidUnlock#1: set locked = false
+//@   ensures !locked
 //@   calls Scheduler.uuidLock#1: requires $0 == uuid
 //@   calls Scheduler.uuidLock#1: set locked = $r
 //@   calls ContainerQueue.Cancel#1: requires locked && $0 == uuid
@@ -156,6 +171,11 @@ package scheduler
 // requeue: the container is unlocked only under its operation latch.
 //@ func Scheduler.requeue property C14
 //@   ghost locked bool = false
+//@   # the operation latch taken here is given back on every path (a latch that
+//@   # stays taken makes every later kill/cancel/requeue of the container a no-op)
+//@   calls Scheduler.uuidUnlock#1: requires locked && $0 == ent.Container.UUID
+//@   calls Scheduler.uuidUnlock#1: set locked = false
+//@   ensures !locked
 //@   calls Scheduler.uuidLock#1: requires $0 == ent.Container.UUID
 //@   calls Scheduler.uuidLock#1: set locked = $r
 //@   calls ContainerQueue.Unlock#1: requires locked && $0 == ent.Container.UUID
